@@ -111,6 +111,8 @@ def cases(tier):
             for idx in range(cnt):
                 yield {"k": "base", "schema": name, "root": root, "n": n, "idx": idx}
     yield {"k": "multi-op"}
+    yield {"k": "operation-name"}
+    yield {"k": "abstract-args"}
     for j, (tc, parents) in enumerate(O.shared_fragment_parent_tuples(S.SCHEMAS["D"], tier)):
         yield {"k": "shared-frag", "tc": tc, "parents": [list(p) for p in parents]}
     for depth in range(1, b["history_depth"] + 1):
@@ -156,7 +158,7 @@ def _lib_run(mode, name, text, ast, opname, variables, world):
             r = execute(schema(name), ast, operation_name=opname, variables=variables, context_value=ctx, executor_cls=Executor)
         elif mode == "graphql_blocking":
             r = graphql_blocking(schema(name), text, operation_name=opname, variables=variables, context=ctx)
-            if "data" not in r.response():
+            if "data" not in r.response() or (r.data is None and r.errors and all(getattr(e, "path", None) is None for e in r.errors)):
                 return ("request-error", [str(e) for e in r.errors])
         elif mode == "default-resolver":
             sm = S.SCHEMAS[name]
@@ -608,6 +610,14 @@ def selftest():
 
 
 def check_case(case, st):
+    before = st.counters.get("evaluations", 0)
+    try:
+        return _check_case(case, st)
+    finally:
+        st.n("evaluations:" + case["k"] + (":n=%d" % case["n"] if "n" in case else ""), st.counters.get("evaluations", 0) - before)
+
+
+def _check_case(case, st):
     k = case["k"]
     bounds = BOUNDS[case["t"]]
     st.n("kind:" + k)
@@ -617,6 +627,17 @@ def check_case(case, st):
         out = []
         for name, c, opnames in multi_op_cases():
             out.extend(run_document(name, c, st, bounds, opnames))
+        return out
+    if k == "operation-name":
+        out = []
+        for tag, c, names in O.operation_name_docs():
+            out.extend(run_document("A", c, st, bounds, tuple(names)))
+        return out
+    if k == "abstract-args":
+        out = []
+        ab = dict(bounds, type_and_list_faults_only=True, exhaustive_invocations=0, faults_beyond=3)
+        for tag, c in O.abstract_argument_docs():
+            out.extend(run_document("D", c, st, ab))
         return out
     if k == "shared-frag":
         out = []
@@ -651,6 +672,10 @@ def check_case(case, st):
         c1 = O.apply(sm, base, d1)
         for dev in O.deviations(sm, c1["doc"], min_pos=d1[1]):
             if dev[0].startswith("arg:") and _key_shared(sm, c1["doc"], dev[1]):
+                continue
+            if case["t"] == "quick" and d1[0].startswith("dir:") and dev[0].startswith("dir:") and not ("var" in d1[0] and "var" in dev[0]):
+                # quick: of the pairs of two directive deviations only those steered by two variables
+                # (literal x literal / literal x variable pairs are left to the thorough tier)
                 continue
             c2 = O.apply(sm, c1, dev)
             if st.counters.get("documents", 0) % 1999 == 1:
